@@ -373,8 +373,8 @@ def app_root_cases(ctx, env_ctl):
 
 def run(ctx):
     import logging
-    logging.getLogger("deep").setLevel(logging.CRITICAL + 1)
-    logging.getLogger().setLevel(logging.CRITICAL + 1)
+    from ..lib.quiet import quiet_logging
+    quiet_logging()
     ctx.rule = ("resolution: random key (9 documented, 5 undocumented, 2 real attributes) x code value {absent, None, text, "
                 "number, bool, list, function} x DEEP_<KEY> {absent, text}, deep.config re-imported per environment; typed "
                 "use: every truth word / bool / 0,1 for SERVICE_SECURE and a plugin switch from code and from environment "
